@@ -92,6 +92,34 @@ func genC17Struct(t *rapid.T) *StructCase {
 				}
 			}
 		}
+		// botheq members that are pointers: equal values in DIFFERENT allocations (and, sometimes, one differing)
+		if rapid.Bool().Draw(t, "equalPointees") {
+			differ := rapid.IntRange(0, 2).Draw(t, "onePointeeDiffers") == 0
+			first := true
+			for i, f := range ty.Fields {
+				if i >= len(top.E) || f.T.K != "ptr" || f.T.Elem.Elem != nil || !strings.Contains(f.Tags["valid"], "botheq=") {
+					continue
+				}
+				var pv desc.V
+				switch f.T.Elem.K {
+				case "string":
+					pv = desc.Str("same")
+				case "bool":
+					pv = desc.V{B: true}
+				case "float64", "float32":
+					pv = desc.V{F: 1.5}
+				case "uint8", "uint64", "uint":
+					pv = desc.V{U: 7}
+				default:
+					pv = desc.V{I: 7}
+				}
+				if differ && !first && f.T.Elem.K == "string" {
+					pv = desc.Str("other")
+				}
+				first = false
+				top.E[i] = desc.V{E: []desc.V{pv}}
+			}
+		}
 		c := &StructCase{Root: desc.Ptr(ty), Val: desc.V{E: []desc.V{top}}}
 		if rapid.Bool().Draw(t, "mapTop") {
 			c.Root = desc.Map(desc.Scalar("string"), ty)
